@@ -257,6 +257,19 @@ pub enum DbOp {
     CompactAll,
     /// take a snapshot (kept until the end of the history; `run_views` reports what it sees)
     Snapshot,
+    /// one atomic batch: (key, Some(value)) = put, (key, None) = delete
+    Batch(Vec<(Vec<u8>, Option<Vec<u8>>)>),
+}
+
+fn make_batch(ops: &[(Vec<u8>, Option<Vec<u8>>)]) -> crate::Batch {
+    let mut b = crate::Batch::new();
+    for (k, v) in ops {
+        match v {
+            Some(v) => { b.add_put(k.clone(), v.clone()); }
+            None => { b.add_delete(k.clone()); }
+        }
+    }
+    b
 }
 
 /// Runs the history on an in-memory file system and returns, after the last step, what `get`
@@ -272,6 +285,7 @@ pub fn run_history(ops: &[DbOp], keys: &[Vec<u8>]) -> Vec<String> {
             DbOp::Flush => db.as_ref().unwrap().force_memtable_compaction().unwrap(),
             DbOp::CompactAll => db.as_ref().unwrap().compact_range(None..None),
             DbOp::Snapshot => {}
+            DbOp::Batch(ops) => db.as_ref().unwrap().apply(WriteOptions::default(), make_batch(ops)).unwrap(),
             DbOp::Reopen(reuse) => {
                 drop(db.take());
                 options.reuse_log_files = *reuse;
@@ -322,6 +336,7 @@ pub fn run_views(ops: &[DbOp], keys: &[Vec<u8>], moves: &str) -> Vec<View> {
             DbOp::Flush => db.as_ref().unwrap().force_memtable_compaction().unwrap(),
             DbOp::CompactAll => db.as_ref().unwrap().compact_range(None..None),
             DbOp::Snapshot => snaps.push((i, db.as_ref().unwrap().get_snapshot())),
+            DbOp::Batch(ops) => db.as_ref().unwrap().apply(WriteOptions::default(), make_batch(ops)).unwrap(),
             DbOp::Reopen(reuse) => {
                 snaps.clear();
                 drop(db.take());
